@@ -597,17 +597,21 @@ fn cal_index(attr: u16) -> Option<usize> {
 /// description of the accessor defect.
 pub fn cal(attr: u16) -> Result<MaskBits, String> {
     let i = cal_index(attr).ok_or_else(|| "not a bitmask kind".to_string())?;
-    CAL.with(|c| {
+    let f = |a: u16| match crate::core::guard(|| calibrate_mask(a)) {
+        Ok(r) => r,
+        Err(e) => Err(format!("calibration of kind {a}: {}", e.text())),
+    };
+    // try_with: may be called while the thread's locals are being destroyed
+    match CAL.try_with(|c| {
         let mut c = c.borrow_mut();
         if c.is_none() {
-            let f = |a: u16| match crate::core::guard(|| calibrate_mask(a)) {
-                Ok(r) => r,
-                Err(e) => Err(format!("calibration of kind {a}: {}", e.text())),
-            };
             *c = Some([f(3), f(4), f(18), f(19)]);
         }
         c.as_ref().unwrap()[i].clone()
-    })
+    }) {
+        Ok(v) => v,
+        Err(_) => f(attr),
+    }
 }
 
 pub fn cal_bits(attr: u16) -> Option<MaskBits> {
